@@ -221,7 +221,7 @@ inductive Instr
   | needNl                    -- `pp << needs_newline()`
   | labelOutdent              -- Labeled_stmt: `if (pp.needs_newline()) newline_and_indent(-3) else indentation(-3)`
   | throw                     -- Missing_overrider
-  deriving Repr
+  deriving DecidableEq, Repr
 
 /-- The conditions `io.cxx` tests on a node. -/
 inductive Cond
